@@ -41,7 +41,7 @@ RULE = (
     "mode, dictionary); non-trivial = the dictionary selects an overload, a pre-set/default option or a template."
 )
 ASSUMPTIONS = ["graphs are built from importable module-level functions in explicit dataset(f) form; the decorator form is the recorded finding pickle-decorator-form-dataset"]
-FLOORS = {"wired_together_checks": (12, 12), "roundtrips": (78, 78), "outcomes_compared": (3000, 3000), "child_interpreters": (26, 78), "post_load_registrations": (30, 30),
+FLOORS = {"warm_memo_roundtrips": (6, 18), "warm_memo_children": (6, 18), "wired_together_checks": (12, 12), "roundtrips": (78, 78), "outcomes_compared": (3000, 3000), "child_interpreters": (26, 78), "post_load_registrations": (30, 30),
           "unpickled_register_schedules": (150, 1500)}
 SHARDS_QUICK = 2
 SHARDS_THOROUGH = 4
@@ -56,7 +56,10 @@ data = pickle.load(open(sys.argv[1], "rb"))
 out = []
 for o in json.load(open(sys.argv[2])):  # (the parent's corpus: it may have grown at run time)
     out.append([repr(observe(data.evaluate, dict(o))), repr(observe(data.keys, dict(o)))])
-print(json.dumps(out))
+if len(sys.argv) > 3:
+    print(json.dumps({"effects": len(M.EFFECT_LOG)}))
+else:
+    print(json.dumps(out))
 """
 
 
@@ -227,6 +230,52 @@ def known_finding_reproducer(ctx):
         ctx.violation("pickle-dumps", f"decorator-form dataset: {type(e).__name__}: {str(e)[:160]}", {"graph": "deco", "mechanism": mech})
 
 
+def warm_memo_travels(ctx, name, proto, hashseed):
+    """What a dataset has already computed is part of it: a warm copy answers the same dictionaries from its memory
+    (no effect fires again), in-process and in a freshly started interpreter with another hash seed."""
+    g = pickle.loads(pickle.dumps(M.GRAPHS[name], protocol=proto))  # a private copy to warm up
+    warm_corpus = [o for o in M.CORPUS if observe(g.evaluate, dict(o))[0] == "ok"]
+    blob = pickle.dumps(g, protocol=proto)
+    g2 = pickle.loads(blob)
+    n0 = len(M.EFFECT_LOG)
+    for o in warm_corpus:
+        g2.evaluate(dict(o))
+    fired = len(M.EFFECT_LOG) - n0
+    ctx.evaluations += 2 * len(warm_corpus)
+    ctx.count("warm_memo_roundtrips")
+    W = {"graph": name, "protocol": proto, "mode": "warm-memo", "hash_seed": hashseed}
+    if fired:
+        ctx.violation("copy-behaves-differently", f"{name} protocol {proto}: a warm copy re-ran {fired} effect(s) for dictionaries the original had already computed", W)
+        return
+    tmp = tempfile.mkdtemp(prefix="lvf-c20-")
+    try:
+        path, cpath = os.path.join(tmp, "g.pkl"), os.path.join(tmp, "corpus.json")
+        with open(path, "wb") as f:
+            f.write(blob)
+        with open(cpath, "w") as f:
+            json.dump(warm_corpus, f)
+        env = dict(os.environ, PYTHONHASHSEED=str(hashseed), PYTHONPATH=boot.VERIF)
+        try:
+            r = subprocess.run([sys.executable, "-B", "-c", CHILD, path, cpath, "effects"], cwd=boot.VERIF, env=env, capture_output=True, text=True, timeout=300)
+        except subprocess.TimeoutExpired:
+            ctx.inconclusive.append(f"child interpreter for {name} timed out")
+            return
+        if r.returncode != 0:
+            ctx.violation("fresh-process-load", f"{name} protocol {proto}: child interpreter failed: {r.stderr[-300:]}", W)
+            return
+        fired = json.loads(r.stdout.strip().splitlines()[-1])["effects"]
+        ctx.count("warm_memo_children")
+        if fired:
+            ctx.violation("copy-behaves-differently", f"{name} protocol {proto}: in a fresh interpreter (hash seed {hashseed}) the warm copy re-ran {fired} effect(s) "
+                          f"for {len(warm_corpus)} dictionaries the original had already computed", W)
+            return
+        ctx.nontrivial(spec_hash([name, proto, "warm-memo", hashseed]))
+    finally:
+        import shutil
+
+        shutil.rmtree(tmp, ignore_errors=True)
+
+
 def wired_together(ctx, proto):
     """Objects pickled together stay wired together: after loading (total, dependency) a registration on the loaded
     dependency is seen by the loaded consumer (and not by the originals)."""
@@ -275,6 +324,10 @@ def run(ctx):
             continue
         for hs in ([1] if ctx.quick else [1, 7, 4242]):
             child_roundtrip(ctx, name, proto, blob, expected, hs)
+    for k, (name, proto) in enumerate([(n, p) for n in ("ds_c", "ds_main", "expr_root") for p in (2, pickle.HIGHEST_PROTOCOL)]):
+        if k % ctx.shards == ctx.shard:
+            for hs in ([3] if ctx.quick else [3, 11, 4242]):
+                warm_memo_travels(ctx, name, proto, hs)
     unpickled_register_schedules(ctx, pickle.HIGHEST_PROTOCOL if ctx.shard % 2 == 0 else 2, 60 if ctx.quick else 300, 40 if ctx.quick else 300)
 
 
@@ -283,7 +336,9 @@ def replay(ctx, rep):
     if "run-time" not in M.ds_dep.overloads.lookup:
         M.ds_dep.register("run-time", Value(("registered-at-run-time",)))
         M.CORPUS.append({"D": "run-time", "C": 4})
-    if w.get("graph") == "wired":
+    if w.get("mode") == "warm-memo":
+        warm_memo_travels(ctx, w["graph"], w["protocol"], w.get("hash_seed", 3))
+    elif w.get("graph") == "wired":
         wired_together(ctx, w.get("protocol", 2))
     elif w.get("graph") == "deco":
         known_finding_reproducer(ctx)
